@@ -47,6 +47,19 @@ def stream_of(shape):
     return toks
 
 
+def prime(cp, toks):
+    """Another table for the same operator names is used first, in the same process: every operator at one
+    level, infix right-associative.  A PrattParser that honours ITS OWN declared table is not affected by what
+    other tables declared before it (a stale per-process cache keyed by operator name would be)."""
+    prefix = {n: 6 for k, n in toks if k == "prefix"}
+    postfix = {n: 6 for k, n in toks if k == "postfix"}
+    infix = {n: (6, True) for k, n in toks if k == "infix"}
+    try:
+        make_parser(cp, prefix, postfix, infix).parse_expr(make_stream(cp, toks))
+    except Exception:  # noqa: BLE001  (the primer's own result is not the subject)
+        pass
+
+
 def make_parser(cp, prefix, postfix, infix):
     PrattParser = cp.pest.PrattParser
 
@@ -159,6 +172,7 @@ def run_concrete(cp, toks, precs, assoc):
     prefix = {n: precs[n] for k, n in toks if k == "prefix"}
     postfix = {n: precs[n] for k, n in toks if k == "postfix"}
     infix = {n: (precs[n], assoc[n]) for k, n in toks if k == "infix"}
+    prime(cp, toks)
     P = make_parser(cp, prefix, postfix, infix)
     st = make_stream(cp, toks)
     try:
@@ -201,6 +215,7 @@ def run(task: dict) -> dict:
             prefix = {n: mkint(pv[n]) for k, n in ops if k == "prefix"}
             postfix = {n: mkint(pv[n]) for k, n in ops if k == "postfix"}
             infix = {n: (mkint(pv[n]), SymBool(av[n])) for k, n in ops if k == "infix"}
+            prime(cp, toks)
             P = make_parser(cp, prefix, postfix, infix)
             st = make_stream(cp, toks)
             try:
